@@ -13,6 +13,29 @@ pub fn chars(s: &str) -> Value {
     Value::Array(s.chars().map(|c| Value::String(c.to_string())).collect())
 }
 
+/// Progress of the recorder (events written, time of the last one): a watchdog ends a recording whose driver is stuck in
+/// an engine call, appending a `panic` event ("hang") so that the trace specification rejects the trace there.
+pub static PROGRESS: std::sync::Mutex<Option<(std::time::Instant, u64, String)>> = std::sync::Mutex::new(None);
+
+pub fn start_record_watchdog() {
+    std::thread::spawn(|| loop {
+        std::thread::sleep(std::time::Duration::from_secs(2));
+        let stuck = {
+            let g = PROGRESS.lock().unwrap();
+            g.as_ref().filter(|(t, _, _)| t.elapsed().as_secs() >= 60).map(|(_, n, p)| (*n, p.clone()))
+        };
+        if let Some((n, path)) = stuck {
+            use std::io::Write;
+            if let Ok(mut f) = std::fs::OpenOptions::new().append(true).open(&path) {
+                let _ = writeln!(f, "{}", json!({"ev": "panic", "kind": "panic", "typed": [], "what": "an engine call did not return within 60 s (hang / unbounded time)", "panic": "hang"}));
+            }
+            println!("RV-RECORDED {}", n + 1);
+            let _ = std::io::stdout().flush();
+            std::process::exit(0);
+        }
+    });
+}
+
 pub struct Recorder {
     pub out: std::io::BufWriter<std::fs::File>,
     pub n: u64,
@@ -31,6 +54,8 @@ pub const SUFFIX_SAMPLE: &[&str] = &["e", "er", "gulo", "ra", "ke", "ta", "ti", 
 
 impl Recorder {
     pub fn new(path: &str, seed: u64) -> Recorder {
+        *PROGRESS.lock().unwrap() = Some((std::time::Instant::now(), 0, path.to_string()));
+        start_record_watchdog();
         Recorder {
             out: std::io::BufWriter::new(std::fs::File::create(path).unwrap()),
             n: 0,
@@ -42,7 +67,12 @@ impl Recorder {
     }
     pub fn emit(&mut self, v: Value) {
         writeln!(self.out, "{}", serde_json::to_string(&v).unwrap()).unwrap();
+        let _ = self.out.flush();
         self.n += 1;
+        if let Some(p) = PROGRESS.lock().unwrap().as_mut() {
+            p.0 = std::time::Instant::now();
+            p.1 = self.n;
+        }
     }
     /// type a phonetic text, passing the preselected index last shown as selection byte
     pub fn type_text(&self, c: &mut Ctx, text: &str) -> Obs {
@@ -118,7 +148,9 @@ impl Recorder {
                 self.emit(json!({"ev": "list", "typed": chars(&typed), "cands": o.cands.iter().map(|c| chars(c)).collect::<Vec<_>>(),
                                  "sel": o.sel, "psel": psel, "tlp": tlp, "tls": tls, "smart": smart}));
                 let n = o.cands.len();
-                let idx = if self.rng.below(2) == 0 && n > 1 { (o.sel + 1 + self.rng.below(n - 1)) % n } else { o.sel.min(n - 1) };
+                // a non-preselected index in half of the cases; when something learned / derived is preselected, go back to index 0 often
+                let idx = if o.sel != 0 && o.sel < n && self.rng.below(2) == 0 { 0 }
+                          else if self.rng.below(2) == 0 && n > 1 { (o.sel + 1 + self.rng.below(n - 1)) % n } else { o.sel.min(n - 1) };
                 let oc = ctx.commit(idx);
                 self.emit(json!({"ev": "commit", "idx": idx, "panic": oc.panic.clone().unwrap_or_default()}));
                 if oc.kind == "panic" {
@@ -131,6 +163,24 @@ impl Recorder {
                 }
                 let st = self.store_state(&self.home);
                 self.emit(json!({"ev": "file", "state": st}));
+                // after a learning commit: often type the same text again right away (same or restarted context)
+                if idx != o.sel && self.rng.below(10) < 6 {
+                    if self.rng.below(4) == 0 {
+                        drop(ctx);
+                        ctx = Ctx::new(&cfg, &self.home).unwrap();
+                        self.emit(json!({"ev": "restart"}));
+                    }
+                    let (o2, psel2) = self.type_text_sel(&mut ctx, &typed);
+                    if o2.kind == "full" {
+                        let tc: Vec<char> = typed.chars().collect();
+                        let tlp: Vec<Value> = (0..=tc.len()).map(|k| chars(&self.or.translit(&tc[..k].iter().collect::<String>()))).collect();
+                        let tls: Vec<Value> = (0..=tc.len()).map(|k| chars(&self.or.translit(&tc[tc.len() - k..].iter().collect::<String>()))).collect();
+                        self.emit(json!({"ev": "list", "typed": chars(&typed), "cands": o2.cands.iter().map(|c| chars(c)).collect::<Vec<_>>(),
+                                         "sel": o2.sel, "psel": psel2, "tlp": tlp, "tls": tls, "smart": smart}));
+                    }
+                    self.emit(json!({"ev": "finish"}));
+                    ctx.finish();
+                }
             }
         }
     }
@@ -281,6 +331,17 @@ impl Recorder {
                 let e = self.plist_event(t, cfg, &o, &user_ac, &mut cache, &offered);
                 self.emit(e);
                 ctxs[ci].finish();
+                // the long-lived context keeps composing other, never-seen words between the texts of the corpus
+                let len = 3 + self.rng.below(6);
+                let w: String = (0..len).map(|_| (b'a' + self.rng.below(26) as u8) as char).collect();
+                let on = self.type_text(&mut ctxs[ci], &w);
+                if on.kind == "panic" {
+                    self.emit(json!({"ev": "panic", "typed": chars(&w), "what": on.panic.clone().unwrap_or_default()}));
+                    ctxs[ci] = Ctx::new(cfg, &self.home).unwrap();
+                } else {
+                    self.emit(json!({"ev": "noise", "typed": chars(&w)}));
+                    ctxs[ci].finish();
+                }
             }
         }
     }
@@ -615,6 +676,108 @@ impl Recorder {
                 }
                 fctx.finish();
             }
+        }
+    }
+}
+
+// ------------------------------------------------------------------------------------------------
+// Random in-contract session driver (C01, C02, C06, C04/C12/C13 on long histories with real data)
+
+impl Recorder {
+    fn sess_cfg(&mut self) -> (Cfg, Value) {
+        let phon = self.rng.below(2) == 0;
+        let b = |r: &mut Rng| r.below(2) == 0;
+        let layout = if phon { "phonetic" } else if self.rng.below(2) == 0 { "probhat" } else { "synth" };
+        let sug = b(&mut self.rng);
+        let cfg = Cfg {
+            layout: layout.into(), psug: phon && sug, fsug: !phon && sug, english: b(&mut self.rng), ansi: self.rng.below(5) == 0, smart: b(&mut self.rng),
+            vowel: b(&mut self.rng), chandra: b(&mut self.rng), kar: b(&mut self.rng), reph: b(&mut self.rng), numpad: b(&mut self.rng),
+            karorder: self.rng.below(3) == 0, db: true,
+        };
+        let j = json!({"method": if phon { "phonetic" } else { "fixed" }, "layout": layout, "sug": sug, "numpad": cfg.numpad,
+                       "o": {"vowel": cfg.vowel, "chandra": cfg.chandra, "kar": cfg.kar, "reph": cfg.reph, "karorder": cfg.karorder}});
+        (cfg, j)
+    }
+
+    fn ret_fields(o: &Obs) -> Value {
+        let shown = match o.kind.as_str() {
+            "full" => o.aux.clone(),
+            "single" => o.cands.get(0).cloned().unwrap_or_default(),
+            _ => String::new(),
+        };
+        json!({"kind": o.kind, "len": o.cands.len(), "rsel": o.sel, "text": chars(&o.aux), "shown": chars(&shown),
+               "pre0": chars(&o.pre.get(0).cloned().flatten().unwrap_or_default()),
+               "readable": o.pre.iter().all(|p| p.is_some()), "ku": o.cands.iter().any(|c| known_unencodable(c)), "ongoing": o.ongoing, "ms": o.us / 1000,
+               "panic": o.panic.clone().unwrap_or_default()})
+    }
+
+    pub fn driver_session(&mut self, rounds: usize) {
+        let letters: Vec<u16> = "abcdefghijklmnopqrstuvwxyzABDGHJKNOSTZ".chars().filter_map(|c| self.keys.code_for_char(c)).collect();
+        let all: Vec<u16> = self.keys.codes.iter().map(|k| k.code).collect();
+        for _ in 0..rounds {
+            clean_home(&self.home);
+            let (mut cfg, j) = self.sess_cfg();
+            let mut ctx = match Ctx::new(&cfg, &self.home) {
+                Ok(c) => c,
+                Err(p) => {
+                    self.emit(json!({"ev": "key", "kind": "panic", "panic": p, "code": 0, "mod": 0, "sel": 0}));
+                    continue;
+                }
+            };
+            self.emit(json!({"ev": "new", "cfg": j}));
+            let mut last = Obs { kind: "none".into(), ..Default::default() };
+            let mut shown = false;
+            let merge = |mut a: Value, b: Value| -> Value {
+                for (k, v) in b.as_object().unwrap() {
+                    a[k] = v.clone();
+                }
+                a
+            };
+            for _ in 0..(40 + self.rng.below(80)) {
+                let r = self.rng.below(100);
+                let last_len = last.len();
+                if r < 68 {
+                    let code = if self.rng.below(10) < 7 { *self.rng.pick(&letters) } else { *self.rng.pick(&all) };
+                    let m = match self.rng.below(10) { 0 => 1u8, 1 => 2, 2 => 3, 3 => 0x82, _ => 0 };
+                    let sel = if last.kind == "full" && last_len > 0 && self.rng.below(3) == 0 { self.rng.below(last_len.min(255)) as u8 } else { 0 };
+                    let o = ctx.key(code, m, sel);
+                    self.emit(merge(json!({"ev": "key", "code": code, "mod": m, "sel": sel}), Self::ret_fields(&o)));
+                    if o.kind == "panic" { break; }
+                    shown = o.kind == "single" || (o.kind == "full" && !o.cands.is_empty());
+                    last = o;
+                } else if r < 82 {
+                    let ctrl = self.rng.below(8) == 0;
+                    let o = ctx.backspace(ctrl);
+                    self.emit(merge(json!({"ev": "bs", "ctrl": ctrl}), Self::ret_fields(&o)));
+                    if o.kind == "panic" { break; }
+                    shown = o.kind == "single" || (o.kind == "full" && !o.cands.is_empty());
+                    last = o;
+                } else if r < 90 {
+                    if shown && last_len > 0 {
+                        let idx = self.rng.below(last_len);
+                        let o = ctx.commit(idx);
+                        self.emit(json!({"ev": "commit", "idx": idx, "ongoing": o.ongoing, "panic": o.panic.clone().unwrap_or_default()}));
+                        if o.kind == "panic" { break; }
+                        shown = false;
+                        last = Obs { kind: "none".into(), ..Default::default() };
+                    }
+                } else if r < 95 {
+                    let o = ctx.finish();
+                    self.emit(json!({"ev": "finish", "ongoing": o.ongoing, "panic": o.panic.clone().unwrap_or_default()}));
+                    if o.kind == "panic" { break; }
+                    shown = false;
+                    last = Obs { kind: "none".into(), ..Default::default() };
+                } else if !ctx.ongoing() {
+                    let (c2, j2) = self.sess_cfg();
+                    let o = ctx.update(&c2);
+                    cfg = c2;
+                    self.emit(json!({"ev": "update", "cfg": j2, "ongoing": o.ongoing, "panic": o.panic.clone().unwrap_or_default()}));
+                    if o.kind == "panic" { break; }
+                    shown = false;
+                    last = Obs { kind: "none".into(), ..Default::default() };
+                }
+            }
+            let _ = &cfg;
         }
     }
 }
